@@ -328,16 +328,20 @@ class Mailbox:
         new_folder = await mbox._restore_from_db()
 
         # If this new mbox has `\Noselect` then it is essentially a deleted
-        # mailbox. We will return it but we will not check for new messages and
-        # we will not create a management task.
+        # mailbox. We will return it but we will not check for new messages.
+        #
+        # It still gets a management task: commands such as STATUS, SELECT,
+        # DELETE or RENAME queue up on it like on any other mailbox (and a
+        # mailbox that becomes `\Noselect` while the server is running keeps
+        # its task), so without one they would wait until the command timeout.
         #
         if r"\Noselect" not in mbox.attributes:
             optional = not (new_folder or r"\Marked" in mbox.attributes)
             async with mbox.mailbox.lock_folder():
                 await mbox.check_new_msgs_and_flags(optional=optional)
-            mbox.mgmt_task = asyncio.create_task(
-                mbox.management_task(), name=f"mbox '{mbox.name}' mgmt task"
-            )
+        mbox.mgmt_task = asyncio.create_task(
+            mbox.management_task(), name=f"mbox '{mbox.name}' mgmt task"
+        )
         return mbox
 
     ####################################################################
